@@ -31,6 +31,9 @@ pub const SIG_TOPHITS_POSTCARD: &str = "top_hits_intermediate_postcard_roundtrip
 pub const SIG_COMPOSITE_MISSING_ORDER: &str = "composite_histogram_source_missing_order_skips_all";
 pub const SIG_COMPOSITE_DATE_NEG: &str = "composite_date_histogram_negative_timestamp_rounds_up";
 pub const SIG_TERMS_MISSING_EXISTING: &str = "terms_missing_key_equal_to_existing_term_loses_counts";
+/// terms with `missing` equal to an existing term and a segment_size cut: the term's bucket and the bucket of the
+/// value-less documents are cut separately, the returned count can be off by more than doc_count_error_upper_bound
+pub const SIG_TERMS_MISSING_BOUND: &str = "terms_missing_key_equal_to_existing_term_exceeds_error_bound";
 pub const SIG_RANGE_FRACTIONAL: &str = "range_fractional_bound_on_integer_column_truncated";
 pub const SIG_KEY_ORDER_F64: &str = "terms_key_order_on_f64_column_not_numeric";
 pub const SIG_COMPOSITE_NESTED: &str = "composite_nested_in_bucket_aggregation_panics_for_empty_parent_bucket";
@@ -1098,6 +1101,21 @@ fn sanitize(aggs: &mut [AggNode], cx: &Ctx, roundtrips: bool, neg_dates: bool, c
         });
         cx.excluded("terms_key_order_on_f64_column(count order instead)", 1);
     }
+    if is_open(cx, SIG_TERMS_MISSING_BOUND) && has_terms_missing_own_str(aggs) {
+        // known finding: keep the request but take the segment cut away (the exact regime is still checked)
+        let mut changed = false;
+        for_nodes_mut(aggs, &mut |n| {
+            if let AggKind::Terms { field, missing, size, segment_size, .. } = &mut n.kind {
+                if field.is_str() && matches!(missing, Some(TMissing::Own(_))) && eff_segment_size(*size, *segment_size) < 1000 {
+                    *segment_size = Some(1000);
+                    changed = true;
+                }
+            }
+        });
+        if changed {
+            cx.excluded("terms_missing_equal_to_existing_term_with_segment_cut(segment_size enlarged)", 1);
+        }
+    }
     if is_open(cx, SIG_TERMS_MISSING_EXISTING) && has_terms_missing_own_str(aggs) {
         for_nodes_mut(aggs, &mut |n| {
             if let AggKind::Terms { field, missing, .. } = &mut n.kind {
@@ -1123,7 +1141,7 @@ fn sanitize(aggs: &mut [AggNode], cx: &Ctx, roundtrips: bool, neg_dates: bool, c
 /// Gives failures caused by the trigger of a (candidate) known finding that finding's own signature.
 fn classify(f: Failure, aggs: &[AggNode], roundtrips: bool, neg_dates: bool) -> Failure {
     let sig = f.sig.clone();
-    let own = [SIG_TIES, SIG_MULTI, SIG_TOPHITS_FROM, SIG_TOPHITS_POSTCARD, SIG_COMPOSITE_MISSING_ORDER, SIG_COMPOSITE_DATE_NEG, SIG_TERMS_MISSING_EXISTING, SIG_RANGE_FRACTIONAL, SIG_KEY_ORDER_F64, SIG_DATE_F64, SIG_TERMS_MISSING_UNSORTED, SIG_COMPOSITE_NESTED, SIG_COMPOSITE_MEM, SIG_COMPOSITE_AFTER_NULL, SIG_COMPOSITE_EMPTY_MERGE];
+    let own = [SIG_TERMS_MISSING_BOUND, SIG_TIES, SIG_MULTI, SIG_TOPHITS_FROM, SIG_TOPHITS_POSTCARD, SIG_COMPOSITE_MISSING_ORDER, SIG_COMPOSITE_DATE_NEG, SIG_TERMS_MISSING_EXISTING, SIG_RANGE_FRACTIONAL, SIG_KEY_ORDER_F64, SIG_DATE_F64, SIG_TERMS_MISSING_UNSORTED, SIG_COMPOSITE_NESTED, SIG_COMPOSITE_MEM, SIG_COMPOSITE_AFTER_NULL, SIG_COMPOSITE_EMPTY_MERGE];
     let new = if own.contains(&sig.as_str()) || sig.starts_with("INFRA:") {
         None
     } else if (sig.starts_with("ref:") || sig.starts_with("seg:") || sig.starts_with("dist:")) && sig.ends_with("composite") && has_composite_below_mdc0_terms(aggs) && f.detail.contains("number of composite buckets") {
@@ -1143,6 +1161,8 @@ fn classify(f: Failure, aggs: &[AggNode], roundtrips: bool, neg_dates: bool) -> 
         Some(SIG_RANGE_FRACTIONAL)
     } else if sig.starts_with("ref:") && sig.ends_with("terms") && has_f64_key_order(aggs) && f.detail.contains("not in the requested order Key") {
         Some(SIG_KEY_ORDER_F64)
+    } else if sig.starts_with("ref:bound") && sig.contains("terms") && has_terms_missing_own_str(aggs) {
+        Some(SIG_TERMS_MISSING_BOUND)
     } else if sig.starts_with("ref:") && sig.contains("terms") && has_terms_missing_own_str(aggs) && f.detail.contains("doc_count") {
         Some(SIG_TERMS_MISSING_EXISTING)
     } else {
